@@ -13,7 +13,7 @@ META = {
                  "dominating bound; R03.4 no recursion whose depth is controlled by the input, no VLA with an unbounded bound; "
                  "R03.5 interval check of every signed arithmetic/shift/division reachable from the read entry points; R03.6 "
                  "inet_ntop sources have a checked length; R03.7 every throw is std::exception-derived, no handler on the read "
-                 "path, every tool main wraps its read-API calls in a try with a std::exception/... handler that returns. R03.8: a reference/pointer/iterator into a vector, string or deque is not used after a call that may reallocate or shrink the container. R03.9: a cursor that subscripts the input advances by a step whose interval is >= 1. The read side is everything reachable from the decoder, the reader, the renderers and the five tool mains. R03.10: the container FilePreamble::read appends the input's block parameters to is tested for emptiness on every accepting path and is what m_block_parameters holds afterwards (callers take entry 0 outside any handler). R03.3: a min() bound only sanitises an allocation size when the bound is a constant or the size of an existing container - members and parameters may themselves come from the input.",
+                 "path, every tool main wraps its read-API calls in a try with a std::exception/... handler that returns. R03.8: a reference/pointer/iterator into a vector, string or deque is not used after a call that may reallocate or shrink the container. R03.9: a cursor that subscripts the input advances by a step whose interval is >= 1. The read side is everything reachable from the decoder, the reader, the renderers and the five tool mains. R03.11: a pointer / iterator member that refers into a container of the same object (also through accessors of a member object) is re-seated by every member function that can reallocate that container. R03.10: the container FilePreamble::read appends the input's block parameters to is tested for emptiness on every accepting path and is what m_block_parameters holds afterwards (callers take entry 0 outside any handler). R03.3: a min() bound only sanitises an allocation size when the bound is a constant or the size of an existing container - members and parameters may themselves come from the input.",
     "explanation": "Clause-by-clause static rules over the functions reachable from the read entry points (resolved call graph). "
                    "Full memory safety of C++ is not decided: use-after-free in general, uninitialised reads and libstdc++/boost "
                    "internals are outside reach (C19 covers the one ownership hazard the code has).",
@@ -621,6 +621,162 @@ def check_invalidation(run, rule, facts, only_cls=None, floor=10):
     run.floor(rule, floor, "references / iterators into standard containers")
 
 
+def member_element_source(facts, e, depth=0):
+    """element_source through accessors: `&m_preamble.get_block_parameters(i)` is an element of m_preamble.m_block_parameters
+    when the accessor returns (a reference to) an element of a container member of its object."""
+    src = element_source(e)
+    if src is not None:
+        return src
+    u = ir.unwrap_all_casts(unwrap(e))
+    for _ in range(3):
+        if isinstance(u, dict) and u.get("k") == "Un" and u.get("op") in ("&", "*"):
+            u = ir.unwrap_all_casts(unwrap(u.get("e")))
+    if not (isinstance(u, dict) and u.get("k") == "MCall" and isinstance(u.get("callee"), dict) and u["callee"].get("inrepo")) or depth > 2:
+        return None
+    rp = path(u.get("recv"))
+    ret = (u["callee"].get("ret") or "")
+    if rp is None or not (ret.endswith("&") or ret.endswith("*") or "iterator" in ret):
+        return None
+    out = None
+    for g in facts.fns(u["callee"].get("qn")):
+        if g.get("sig") != u["callee"].get("sig") or g.get("body") is None:
+            continue
+        for r in ir.walk(g["body"]):
+            if r.get("k") == "Return" and r.get("e") is not None:
+                s_ = member_element_source(facts, r["e"], depth + 1)
+                if s_ is None:
+                    return None
+                cp, kind = s_
+                if not cp or cp[0] != "this":
+                    return None
+                cand = (tuple(rp) + tuple(cp[1:]), kind)
+                if out is not None and out != cand:
+                    return None
+                out = cand
+    return out
+
+
+def grows_of(facts, fn, depth=0, seen=None):
+    """[(path relative to this, method name, node)] for container members (also of member objects) that fn may reallocate,
+    directly or through in-repo member functions called on itself / on member objects (bounded depth)."""
+    seen = seen if seen is not None else set()
+    if fn.get("body") is None or fn["key"] in seen or depth > 3:
+        return []
+    seen = seen | {fn["key"]}
+    out = []
+    for c in ir.walk(fn["body"]):
+        if c.get("k") not in ("MCall", "OpCall"):
+            continue
+        recv = c.get("recv") if c.get("k") == "MCall" else (c.get("args") or [None])[0]
+        rp = path(recv) if recv is not None else None
+        if not rp or rp[0] != "this":
+            continue
+        kind = container_kind((unwrap(recv) or {}).get("t"))
+        nm = callee_name(c) or ("operator" + c.get("op", "") if c.get("k") == "OpCall" else "")
+        cal = c.get("callee") or {}
+        if kind is not None and nm in GROW[kind] and not cal.get("const"):
+            out.append((tuple(rp), nm, c))
+        elif cal.get("inrepo") and not cal.get("const") and c.get("k") == "MCall":
+            for g in facts.fns(cal.get("qn")):
+                if g.get("sig") == cal.get("sig"):
+                    for (cp, nm2, node) in grows_of(facts, g, depth + 1, seen):
+                        out.append((tuple(rp) + tuple(cp[1:]), "%s -> %s" % (nm, nm2), c))
+    return out
+
+
+def check_member_pointers(run, rule, classes=None, floor=1):
+    """A pointer / iterator *member* that refers to an element of a container owned by the same object dies when any
+    member function lets that container reallocate (push_back, insert, assignment ..) and does not re-seat the pointer
+    before it returns.  The owner is found through accessor functions as well (`&m_preamble.get_block_parameters(i)`)."""
+    facts = run.facts
+    n = 0
+    for q, rec in sorted(facts.records.items()):
+        if not (rec.get("file") or "").startswith(facts.repo + "/src/") or "/src/bin/" in (rec.get("file") or ""):
+            continue
+        if classes is not None and q not in classes:
+            continue
+        ptrs = [f_ for f_ in rec.get("fields", []) if (f_.get("t") or "").endswith("*") or "iterator" in (f_.get("t") or "") or f_.get("ref")]
+        if not ptrs:
+            continue
+        methods = [f for f in facts.functions.values() if f.get("cls") == q and f.get("body") is not None and not f.get("flattened")]
+        for fl in ptrs:
+            # where the member is pointed somewhere
+            targets = set()
+            stores = {}
+            for f in methods:
+                for i_ in f.get("inits", []) or []:
+                    if i_.get("member") == fl["n"] and i_.get("init") is not None:
+                        s_ = member_element_source(facts, i_["init"])
+                        if s_:
+                            targets.add(s_)
+                for lp, rhs, node in consumption.assignment_targets(ir.stmts(f["body"])):
+                    if lp == ("this", fl["n"]):
+                        s_ = member_element_source(facts, rhs)
+                        if s_ is None:
+                            # through a local that was bound to the element just before
+                            u_ = ir.unwrap_all_casts(rhs)
+                            if isinstance(u_, dict) and u_.get("k") == "Ref" and u_.get("d") == "local":
+                                d_ = Env(f["body"]).defs.get(path(u_)[0])
+                                if d_ is not None:
+                                    s_ = member_element_source(facts, d_)
+                        if s_:
+                            targets.add(s_)
+                        stores.setdefault(f["key"], []).append(node)
+            targets = set(t_ for t_ in targets if t_[0] and t_[0][0] == "this")
+            if not targets:
+                continue
+            for (cp, kind) in sorted(targets):
+                n += 1
+                bad = None
+
+                def events(f, depth=0, seen=frozenset()):
+                    """in program order: ('grow', name, node) / ('seat', None, node); calls of the object's own member functions
+                    are followed, calls on member objects are summarised by grows_of"""
+                    if f.get("body") is None or f["key"] in seen or depth > 3:
+                        return []
+                    out_ = []
+                    own_stores = set(id(x) for x in stores.get(f["key"], []))
+                    for x in ir.walk(f["body"]):
+                        if id(x) in own_stores:
+                            out_.append(("seat", None, x))
+                        if x.get("k") not in ("MCall", "OpCall"):
+                            continue
+                        recv = x.get("recv") if x.get("k") == "MCall" else (x.get("args") or [None])[0]
+                        rp = path(recv) if recv is not None else None
+                        cal = x.get("callee") or {}
+                        nm = callee_name(x) or ("operator" + x.get("op", "") if x.get("k") == "OpCall" else "")
+                        if rp == ("this",) and cal.get("inrepo") and x.get("k") == "MCall":
+                            for g in facts.fns(cal.get("qn")):
+                                if g.get("sig") == cal.get("sig"):
+                                    out_ += [(k_, ("%s -> %s" % (nm, n_)) if n_ else None, x) for k_, n_, _ in events(g, depth + 1, seen | {f["key"]})]
+                        elif rp and rp[0] == "this" and len(rp) > 1:
+                            knd = container_kind((unwrap(recv) or {}).get("t"))
+                            if tuple(rp) == tuple(cp) and knd == kind and nm in GROW[kind] and not cal.get("const"):
+                                out_.append(("grow", nm, x))
+                            elif cal.get("inrepo") and not cal.get("const") and x.get("k") == "MCall" and tuple(cp[:len(rp)]) == tuple(rp):
+                                for g in facts.fns(cal.get("qn")):
+                                    if g.get("sig") == cal.get("sig"):
+                                        for (gp, nm2, node2) in grows_of(facts, g):
+                                            if tuple(rp) + tuple(gp[1:]) == tuple(cp) and nm2.split(" -> ")[-1] in GROW[kind]:
+                                                out_.append(("grow", "%s -> %s" % (nm, nm2), x))
+                    return out_
+                for f in methods:
+                    if f.get("dtor"):
+                        continue
+                    ev = events(f)
+                    last_grow = max([i for i, e_ in enumerate(ev) if e_[0] == "grow"], default=None)
+                    if last_grow is not None and not any(e_[0] == "seat" for e_ in ev[last_grow + 1:]):
+                        bad = (f, ev[last_grow][2], ev[last_grow][1])
+                        break
+                key = "%s.%s->%s" % (short(q) if "short" in globals() else q.split("::")[-1], fl["n"], ir.path_str(cp))
+                run.ob(rule, key, bad is None, bad[0] if bad else rec.get("file"), (bad[1].get("l") if bad else rec.get("line")) or 0,
+                       "every member function that can reallocate %s re-seats %s afterwards" % (ir.path_str(cp), fl["n"]) if bad is None else
+                       "%s points into %s; %s calls %s on it and returns with %s still pointing at the old storage: the next use reads freed memory" % (
+                           fl["n"], ir.path_str(cp), bad[0]["qn"].split("::")[-1], bad[2], fl["n"]))
+    run.floor(rule, floor, "pointer / iterator members into own containers")
+    return n
+
+
 # ------------------------------------------------------------------ R03.9 a cursor that indexes the input moves forward
 
 def check_progress(run, rule, fns, facts):
@@ -752,3 +908,4 @@ def check(run):
     check_progress(run, "R03.9", fns, facts)
     check_exceptions(run, "R03.7", reach, mains)
     check_preamble_nonempty(run, "R03.10")
+    check_member_pointers(run, "R03.11", floor=1)
